@@ -4,6 +4,8 @@ package main
 // signed transactions against the chain state at execution time.
 
 import (
+	govv1beta1 "github.com/cosmos/cosmos-sdk/x/gov/types/v1beta1"
+	paramproposal "github.com/cosmos/cosmos-sdk/x/params/types/proposal"
 	"crypto/sha256"
 	"fmt"
 	"strings"
@@ -344,6 +346,17 @@ func (e *Env) build(op *Op) (*Built, string) {
 		return &Built{Msgs: []sdk.Msg{nodetypes.NewMsgRemoveVstorage(a.AddrS, uint64(op.N))}, Signer: a}, ""
 	case "claim":
 		return &Built{Msgs: []sdk.Msg{nodetypes.NewMsgClaimReward(a.AddrS)}, Signer: a}, ""
+	case "gov_param":
+		// a parameter-change proposal for the node module's offline trigger, with the full deposit
+		ch := paramproposal.NewParameterChangeProposal("offline trigger", "change the keep-alive window",
+			[]paramproposal.ParamChange{paramproposal.NewParamChange("node", "OfflineTriggerHeight", fmt.Sprintf("\"%d\"", op.N))})
+		m, err := govv1beta1.NewMsgSubmitProposal(ch, sdk.NewCoins(sdk.NewInt64Coin(Denom, 10_000_000)), a.Addr)
+		if err != nil {
+			return nil, "gov-msg"
+		}
+		return &Built{Msgs: []sdk.Msg{m}, Signer: a}, ""
+	case "gov_vote":
+		return &Built{Msgs: []sdk.Msg{govv1beta1.NewMsgVote(a.Addr, uint64(op.N), govv1beta1.OptionYes)}, Signer: a}, ""
 	case "set_payaddr":
 		// did:key payment address. To: whose DID (+1, default own); N: 1 = foreign account id
 		who := e.ref(op.To, a)
